@@ -5,12 +5,21 @@ package dastard
 // C12 — phase unwrapping keeps the signal modulo flux quanta and is independent of how the
 // sequence is split into calls. Engine A: full enumeration of short sequences over boundary values,
 // all splits into calls, all option sets; oracle = the property's integer arithmetic.
+// Family "device paths": the two production owners of per-channel unwrappers (AbacoGroup.demuxData and
+// RoachDevice.readPackets) are driven block after block and compared with ONE fresh unwrapper that sees
+// the whole sequence in a single call.
 
 import (
+	"bytes"
+	"encoding/binary"
 	"fmt"
+	"net"
+	"os"
 	"testing"
+	"time"
 
 	"github.com/usnistgov/dastard/internal/vexp"
+	"github.com/usnistgov/dastard/packets"
 )
 
 type vUnwrapOpt struct {
@@ -164,6 +173,518 @@ func (o vUnwrapOpt) check(seq []RawType) (viol, class string, wrapped bool, outc
 	return "", "", wrapped, outcome
 }
 
+// =============================================================================================
+// family "device paths": the production owners of the per-channel unwrappers
+
+const vDevQ = 4096 // one quantum after the bit drop, both for Abaco (16-4 bits) and ROACH (14-2 bits)
+
+func vC12Infra(format string, a ...interface{}) {
+	fmt.Fprintf(os.Stderr, "VERIF-INFRA C12 device paths: "+format+"\n", a...)
+	os.Exit(3)
+}
+
+// bias level documented in AbacoUnwrapOptions: +-0.38 of 2^16, sign of the pulses, 0 when not biased
+func vDevBias(bias bool, pulseSign int) int {
+	if !bias {
+		return 0
+	}
+	if pulseSign < 0 {
+		return -24904
+	}
+	return 24904
+}
+
+func vDevHome(pulseSign int) int {
+	if pulseSign > 0 {
+		return vDevQ
+	}
+	return -2 * vDevQ
+}
+
+// the reference: ONE fresh unwrapper, the whole (already inverted) sequence in a single call
+func vDevReference(fractionBits, drop uint, enable bool, biasLevel, resetAfter, pulseSign int, seq []RawType) []RawType {
+	u := NewPhaseUnwrapper(fractionBits, drop, enable, biasLevel, resetAfter, pulseSign, false)
+	out := vCopyRaw(seq)
+	u.UnwrapInPlace(&out)
+	return out
+}
+
+func vDevOutcome(out [][]RawType) string {
+	var ob []byte
+	for _, o := range out {
+		for _, v := range o {
+			ob = append(ob, byte(v), byte(v>>8))
+		}
+	}
+	return string(ob)
+}
+
+// ---------------------------------------------------------------------------------------------
+// (a) Abaco: AbacoGroup owns one unwrapper per channel and calls it once per demuxData
+
+const vAbacoFirst = 6 // first channel number of the group: channel numbers differ from indices in the group
+const vAbacoBigReset = 1000
+
+type vAbacoOpt struct {
+	rescale, unwrap, bias bool
+	resetAfter            int
+	pulseSign             int
+	invertLocal           int // index in the group of the channel listed in InvertChan, -1: none of the group's
+}
+
+func (o vAbacoOpt) String() string {
+	return fmt.Sprintf("rescale=%v/unwrap=%v/bias=%v/reset%d/sign%+d/invert=%d", o.rescale, o.unwrap, o.bias, o.resetAfter, o.pulseSign, o.invertLocal)
+}
+
+func (o vAbacoOpt) options() AbacoUnwrapOptions {
+	// decoys: numbers that are indices in the group but not channel numbers of the group, and a far one
+	inv := []int{0, 1, 100}
+	if o.invertLocal >= 0 {
+		inv = []int{1 - o.invertLocal, vAbacoFirst + o.invertLocal, 100}
+	}
+	return AbacoUnwrapOptions{RescaleRaw: o.rescale, Unwrap: o.unwrap, Bias: o.bias, ResetAfter: o.resetAfter, PulseSign: o.pulseSign, InvertChan: inv}
+}
+
+func (o vAbacoOpt) drop() uint {
+	if o.rescale {
+		return 4
+	}
+	return 0
+}
+
+// a two-channel signal, designed in units of the value after the bit drop (one quantum = vDevQ)
+type vDevSeq struct {
+	name string
+	fpp  int      // frames per packet
+	v    [2][]int // designed value, any integer; the hardware word carries it modulo one quantum
+	slow bool     // every step is well inside the step window of every bias setting
+}
+
+func vAbacoSeqs() []*vDevSeq {
+	q := vDevQ
+	// slow ramps through several quanta, up then down and down then up
+	ramps := &vDevSeq{name: "ramps", fpp: 1, slow: true}
+	a, b := q-40, 20
+	for i := 0; i < 48; i++ {
+		ramps.v[0] = append(ramps.v[0], a)
+		ramps.v[1] = append(ramps.v[1], b)
+		if i < 24 {
+			a += 330
+		} else {
+			a -= 330
+		}
+		if i < 22 {
+			b -= 410
+		} else {
+			b += 410
+		}
+	}
+	// the boundary values of the direct family in a fixed scrambled order: steps at and around the limits
+	bound := &vDevSeq{name: "boundary", fpp: 2}
+	vals := []int{0, 1, q / 4, q/2 - 1, q / 2, q/2 + 1, 3 * q / 4, q - 1}
+	s0, s1 := uint32(12345), uint32(777)
+	for i := 0; i < 48; i++ {
+		s0 = s0*1103515245 + 12345
+		s1 = s1*1103515245 + 12345
+		bound.v[0] = append(bound.v[0], vals[(s0>>16)%8])
+		bound.v[1] = append(bound.v[1], vals[(s1>>16)%8])
+	}
+	// pulses: fast rise of 1.8 quanta, slow decay, on a baseline next to the wrap point; up and down
+	pulses := &vDevSeq{name: "pulses", fpp: 3}
+	l0, l1 := 0, 0
+	for i := 0; i < 45; i++ {
+		switch {
+		case (i >= 5 && i < 9) || (i >= 25 && i < 29):
+			l0 += 1843
+		case l0 > 0:
+			l0 -= 491
+			if l0 < 0 {
+				l0 = 0
+			}
+		}
+		switch {
+		case (i >= 12 && i < 16) || (i >= 30 && i < 34):
+			l1 += 1843
+		case l1 > 0:
+			l1 -= 491
+			if l1 < 0 {
+				l1 = 0
+			}
+		}
+		ripple := (i*3)%5 - 2
+		pulses.v[0] = append(pulses.v[0], q-3+l0+ripple)
+		pulses.v[1] = append(pulses.v[1], 2-l1-ripple)
+	}
+	return []*vDevSeq{ramps, bound, pulses}
+}
+
+// the 16-bit word of the signal after the optional inversion: value modulo one quantum in the upper 12 bits,
+// junk in the 4 bits the rescaling drops
+func (s *vDevSeq) abacoWord(ch, i int) RawType {
+	v := ((s.v[ch][i] % vDevQ) + vDevQ) % vDevQ
+	return RawType(uint16(v)<<4 | uint16(i*7+ch*3)&15)
+}
+
+// packets as they would arrive (through the real encoder and decoder); an inverted channel is sent inverted
+func (s *vDevSeq) abacoPackets(o vAbacoOpt) []*packets.Packet {
+	n := len(s.v[0])
+	var out []*packets.Packet
+	for k := 0; k*s.fpp < n; k++ {
+		p := packets.NewPacket(10, 20, uint32(500+k), vAbacoFirst)
+		d := make([]int16, 0, 2*s.fpp)
+		for f := 0; f < s.fpp; f++ {
+			for ch := 0; ch < 2; ch++ {
+				w := s.abacoWord(ch, k*s.fpp+f)
+				if ch == o.invertLocal {
+					w ^= 0xffff
+				}
+				d = append(d, int16(w))
+			}
+		}
+		if err := p.NewData(d, []int16{2}); err != nil {
+			panic(err)
+		}
+		q, err := packets.ReadPacket(bytes.NewReader(p.Bytes()))
+		if err != nil {
+			panic("harness packet does not decode: " + err.Error())
+		}
+		out = append(out, q)
+	}
+	return out
+}
+
+// one execution: one partition of the packets into 1, 2 or 3 demuxData calls on a fresh real group
+func vAbacoRun(x *vexp.X, o vAbacoOpt, s *vDevSeq, pk []*packets.Packet, ref [2][]RawType) vexp.Result {
+	np := len(pk)
+	first := 1 + x.Choose(np)
+	calls := []int{first}
+	if first < np {
+		second := 1 + x.Choose(np-first)
+		calls = append(calls, second)
+		if first+second < np {
+			calls = append(calls, np-first-second)
+		}
+	}
+	x.Steps = len(calls)
+	g := NewAbacoGroup(GroupIndex{Firstchan: vAbacoFirst, Nchan: 2}, o.options())
+	for _, p := range pk {
+		g.enqueuePacket(p, vT0)
+	}
+	out := make([][]RawType, 2)
+	var bounds []int // sample index at which each later call starts
+	for ci, c := range calls {
+		frames := c * s.fpp
+		dc := [][]RawType{make([]RawType, frames), make([]RawType, frames)}
+		g.demuxData(dc, frames)
+		if ci > 0 {
+			bounds = append(bounds, len(out[0]))
+		}
+		for ch := range dc {
+			out[ch] = append(out[ch], dc[ch]...)
+		}
+	}
+	x.Logf("options %v sequence %s: packets per demuxData call %v", o, s.name, calls)
+	oc := vDevOutcome(out)
+	n := len(s.v[0])
+	home := vDevHome(o.pulseSign)
+	what := fmt.Sprintf("options %v, sequence %s, %d packets of %d frames in demuxData calls of %v packets", o, s.name, np, s.fpp, calls)
+	away := false // a later call started while the output was away from the home offset
+	for ch := 0; ch < 2; ch++ {
+		if len(out[ch]) != n {
+			return vexp.Result{Violation: fmt.Sprintf("%s: channel %d delivered %d samples of %d", what, ch, len(out[ch]), n), Class: "c12-abaco-sample-count", Outcome: oc}
+		}
+		// the property's first clause on every sample
+		for i := 0; i < n; i++ {
+			inPrime := int(s.abacoWord(ch, i) >> o.drop())
+			if !o.unwrap {
+				if int(out[ch][i]) != inPrime {
+					return vexp.Result{Violation: fmt.Sprintf("%s: unwrapping disabled: channel %d sample %d is %d, the input after inversion and bit drop is %d", what, ch, i, out[ch][i], inPrime), Class: "c12-abaco-disabled-not-input", Outcome: oc}
+				}
+			} else if d := (int(out[ch][i]) - inPrime - home) & 0xffff; d%vDevQ != 0 {
+				return vexp.Result{Violation: fmt.Sprintf("%s: channel %d sample %d: output %d minus input after inversion and bit drop %d is not a whole number of quanta (%d)", what, ch, i, out[ch][i], inPrime, vDevQ), Class: "c12-abaco-not-input-plus-quanta", Outcome: oc}
+			}
+		}
+		// one fresh unwrapper, one call
+		for i := 0; i < n; i++ {
+			if out[ch][i] != ref[ch][i] {
+				cls := "c12-abaco-split-dependent"
+				if i < calls[0]*s.fpp {
+					cls = "c12-abaco-differs-from-documented-unwrapper" // already in the first call: state cannot be the reason
+				}
+				return vexp.Result{Violation: fmt.Sprintf("%s: channel %d sample %d is %d; one fresh unwrapper (16 fraction bits, %d dropped, enable=%v, bias %d, resetAfter %d, pulse sign %+d) fed the whole sequence in one call gives %d (later calls start at samples %v)",
+					what, ch, i, out[ch][i], o.drop(), o.unwrap, vDevBias(o.bias, o.pulseSign), o.resetAfter, o.pulseSign, ref[ch][i], bounds), Class: cls, Outcome: oc}
+			}
+		}
+		if o.unwrap {
+			for _, b := range bounds {
+				if (int(ref[ch][b-1])-int(s.abacoWord(ch, b-1)>>o.drop())-home)&0xffff != 0 {
+					away = true
+				}
+			}
+			// slow signal, no automatic reset in reach: reproduced without jumps, also across calls
+			if s.slow && o.resetAfter >= n {
+				for i := 1; i < n; i++ {
+					got := int(int16(out[ch][i] - out[ch][i-1]))
+					if want := s.v[ch][i] - s.v[ch][i-1]; got != want {
+						return vexp.Result{Violation: fmt.Sprintf("%s: channel %d: the slow signal steps by %d at sample %d, the output by %d", what, ch, want, i, got), Class: "c12-abaco-jump-in-slow-signal", Outcome: oc}
+					}
+				}
+			}
+		}
+	}
+	return vexp.Result{Nontrivial: away, Outcome: oc}
+}
+
+func vAbacoCases(r *vexp.Runner) (nopt int) {
+	seqs := vAbacoSeqs()
+	for _, rescale := range []bool{true, false} {
+		for _, unwrap := range []bool{true, false} {
+			for _, inv := range []int{-1, 1} {
+				for _, ps := range []int{+1, -1} {
+					for _, bias := range []bool{false, true} {
+						for _, ra := range []int{6, vAbacoBigReset} {
+							o := vAbacoOpt{rescale: rescale, unwrap: unwrap, bias: bias, resetAfter: ra, pulseSign: ps, invertLocal: inv}
+							if o.options().isvalid() != nil {
+								continue // Configure refuses these
+							}
+							if !unwrap && (bias || ra != vAbacoBigReset) {
+								continue // unused when unwrapping is off
+							}
+							nopt++
+							for _, s := range seqs {
+								s := s
+								pk := s.abacoPackets(o)
+								var ref [2][]RawType
+								for ch := 0; ch < 2; ch++ {
+									seq := make([]RawType, len(s.v[ch]))
+									for i := range seq {
+										seq[i] = s.abacoWord(ch, i)
+									}
+									ref[ch] = vDevReference(16, o.drop(), o.unwrap, vDevBias(o.bias, o.pulseSign), o.resetAfter, o.pulseSign, seq)
+								}
+								r.DFS(fmt.Sprintf("abaco/%v/%s", o, s.name), -1, func(x *vexp.X) vexp.Result { return vAbacoRun(x, o, s, pk, ref) })
+							}
+						}
+					}
+				}
+			}
+		}
+	}
+	return nopt
+}
+
+// ---------------------------------------------------------------------------------------------
+// (b) ROACH: RoachDevice.readPackets bundles the UDP packets of each 100 ms window into one block and
+// unwraps every channel of the block with the device's unwrapper for that channel
+
+type vRoachVar struct {
+	pulseSign int
+	bias      bool
+	wordLen   int     // bytes per value in the packets
+	bursts    [][]int // samples per packet, per burst; the first packet of the first burst is the sampled one
+	step      [2]int  // change of the hardware word per sample: channel 0 up then down, channel 1 down then up
+}
+
+func (v vRoachVar) String() string {
+	return fmt.Sprintf("sign%+d/bias=%v/word%d/step%v/bursts%v", v.pulseSign, v.bias, v.wordLen, v.step, v.bursts)
+}
+
+// the phase in units of the 16-bit hardware word (2 integer + 14 fraction bits), as an unbounded integer
+func (v vRoachVar) phases() (phi [2][]int) {
+	n := 0
+	for _, b := range v.bursts {
+		for _, k := range b {
+			n += k
+		}
+	}
+	a, b := 40<<14+16000, 40<<14+300
+	for i := 0; i < n; i++ {
+		phi[0] = append(phi[0], a)
+		phi[1] = append(phi[1], b)
+		if i < n*11/20 {
+			a += v.step[0]
+			b -= v.step[1]
+		} else {
+			a -= v.step[0]
+			b += v.step[1]
+		}
+	}
+	return phi
+}
+
+func (v vRoachVar) packet(phi [2][]int, from, nsamp int) []byte {
+	buf := new(bytes.Buffer)
+	flags := uint16(1)
+	if v.wordLen == 4 {
+		flags = 2
+	}
+	binary.Write(buf, binary.BigEndian, packetHeader{Fluxramp: 1, Nchan: 2, Nsamp: uint16(nsamp), Flags: flags, Sampnum: uint64(7000 + from)})
+	for i := from; i < from+nsamp; i++ {
+		for ch := 0; ch < 2; ch++ {
+			binary.Write(buf, binary.BigEndian, uint16(phi[ch][i]))
+			if v.wordLen == 4 {
+				binary.Write(buf, binary.BigEndian, uint16(0xa5c3+i)) // the low half of a 4-byte value is not used
+			}
+		}
+	}
+	return buf.Bytes()
+}
+
+func vRoachNext(c chan *dataBlock, what string) *dataBlock {
+	select {
+	case b := <-c:
+		return b
+	case <-time.After(20 * time.Second):
+		vC12Infra("ROACH: no block within 20 s while waiting for %s", what)
+	}
+	return nil
+}
+
+func vRoachRun(x *vexp.X, v vRoachVar) vexp.Result {
+	phi := v.phases()
+	dev, err := NewRoachDevice("127.0.0.1:0", 40000.0)
+	if err != nil {
+		vC12Infra("NewRoachDevice: %v", err)
+	}
+	dev.unwrapOpts = AbacoUnwrapOptions{RescaleRaw: true, Unwrap: true, Bias: v.bias, PulseSign: v.pulseSign} // what Configure stores
+	client, err := net.DialUDP("udp", nil, dev.conn.LocalAddr().(*net.UDPAddr))
+	if err != nil {
+		vC12Infra("DialUDP: %v", err)
+	}
+	defer client.Close()
+	nextBlock := make(chan *dataBlock)
+	out := make([][]RawType, 2)
+	var blockLens []int
+	sent, sampled := 0, 0
+	running := false
+	stop := func() { // close the socket: readPackets delivers an error block and returns
+		dev.conn.Close()
+		for running {
+			if b := vRoachNext(nextBlock, "the error block after closing the socket"); b.err != nil {
+				running = false
+			}
+		}
+	}
+	for bi, burst := range v.bursts {
+		for _, k := range burst {
+			if _, err := client.Write(v.packet(phi, sent, k)); err != nil {
+				vC12Infra("UDP send: %v", err)
+			}
+			sent += k
+		}
+		if bi == 0 {
+			if err := dev.samplePacket(); err != nil {
+				vC12Infra("samplePacket: %v", err)
+			}
+			sampled = burst[0]
+			if dev.nchan != 2 || len(dev.unwrap) != 2 {
+				stop()
+				return vexp.Result{Violation: fmt.Sprintf("%v: samplePacket sees %d channels and makes %d unwrappers, the packet has 2 channels", v, dev.nchan, len(dev.unwrap)), Class: "c12-roach-unwrapper-count"}
+			}
+			running = true
+			go dev.readPackets(nextBlock)
+		}
+		// normally one block per burst; a burst that straddles the end of a 100 ms window comes in two
+		for len(out[0]) < sent-sampled {
+			b := vRoachNext(nextBlock, fmt.Sprintf("the samples of burst %d", bi+1))
+			if b.err != nil {
+				running = false
+				stop()
+				return vexp.Result{Violation: fmt.Sprintf("%v: error block after burst %d: %v", v, bi+1, b.err), Class: "c12-roach-error-block"}
+			}
+			x.Steps++
+			if len(b.segments) != 2 || len(b.segments[0].rawData) != b.nSamp || len(b.segments[1].rawData) != b.nSamp {
+				stop()
+				return vexp.Result{Violation: fmt.Sprintf("%v: block %d: %d segments, nSamp %d", v, len(blockLens)+1, len(b.segments), b.nSamp), Class: "c12-roach-block-shape"}
+			}
+			blockLens = append(blockLens, b.nSamp)
+			for ch := 0; ch < 2; ch++ {
+				out[ch] = append(out[ch], b.segments[ch].rawData...)
+			}
+		}
+	}
+	stop()
+	x.Logf("%v: block lengths %v", v, blockLens)
+	oc := vDevOutcome(out)
+	n := sent - sampled
+	home := vDevHome(v.pulseSign)
+	what := fmt.Sprintf("%v, %d samples after the sampled packet delivered in blocks of %v", v, n, blockLens)
+	away := 0 // block boundaries at which the output was away from the home offset
+	for ch := 0; ch < 2; ch++ {
+		if len(out[ch]) != n {
+			return vexp.Result{Violation: fmt.Sprintf("%s: channel %d delivered %d samples", what, ch, len(out[ch])), Class: "c12-roach-sample-count", Outcome: oc}
+		}
+		seq := make([]RawType, n)
+		inPrime := make([]int, n)
+		for i := range seq {
+			seq[i] = RawType(uint16(phi[ch][sampled+i]))
+			inPrime[i] = (phi[ch][sampled+i] & 0x3fff) >> 2
+		}
+		for i := 0; i < n; i++ {
+			if d := (int(out[ch][i]) - inPrime[i] - home) & 0xffff; d%vDevQ != 0 {
+				return vexp.Result{Violation: fmt.Sprintf("%s: channel %d sample %d: output %d minus input after bit drop %d is not a whole number of quanta (%d)", what, ch, i, out[ch][i], inPrime[i], vDevQ), Class: "c12-roach-not-input-plus-quanta", Outcome: oc}
+			}
+		}
+		ref := vDevReference(14, 2, true, vDevBias(v.bias, v.pulseSign), 20000, v.pulseSign, seq)
+		for i := 0; i < n; i++ {
+			if out[ch][i] != ref[i] {
+				cls := "c12-roach-state-lost-between-blocks"
+				if i < blockLens[0] {
+					cls = "c12-roach-differs-from-documented-unwrapper"
+				}
+				return vexp.Result{Violation: fmt.Sprintf("%s: channel %d sample %d is %d; one fresh unwrapper (14 fraction bits, 2 dropped, bias %d, resetAfter 20000, pulse sign %+d) fed everything after the sampled packet in one call gives %d",
+					what, ch, i, out[ch][i], vDevBias(v.bias, v.pulseSign), v.pulseSign, ref[i]), Class: cls, Outcome: oc}
+			}
+		}
+		pos := 0
+		for _, l := range blockLens[:len(blockLens)-1] {
+			pos += l
+			if (int(ref[pos-1])-inPrime[pos-1]-home)&0xffff != 0 {
+				away++
+			}
+		}
+		// the slow ramp is reproduced without jumps, also across block boundaries
+		if !v.bias {
+			for i := 1; i < n; i++ {
+				got := int(int16(out[ch][i] - out[ch][i-1]))
+				if want := phi[ch][sampled+i]>>2 - phi[ch][sampled+i-1]>>2; got != want {
+					return vexp.Result{Violation: fmt.Sprintf("%s: channel %d: the slow ramp steps by %d at sample %d, the output by %d", what, ch, want, i, got), Class: "c12-roach-jump-in-slow-ramp", Outcome: oc}
+				}
+			}
+		}
+	}
+	return vexp.Result{Nontrivial: len(blockLens) > 1 && away > 0, Outcome: oc}
+}
+
+func vRoachCases(r *vexp.Runner) (nvar int) {
+	even := [][]int{{10, 10, 10, 10}, {10, 10, 10}, {10, 10, 10}}
+	ragged := [][]int{{3, 1, 22, 9}, {17}, {2, 30, 1, 1, 8}}
+	var vars []vRoachVar
+	for _, ps := range []int{+1, -1} {
+		for _, wl := range []int{2, 4} {
+			vars = append(vars, vRoachVar{pulseSign: ps, wordLen: wl, bursts: even, step: [2]int{1200, 1000}})
+			vars = append(vars, vRoachVar{pulseSign: ps, wordLen: wl, bursts: ragged, step: [2]int{1001, 1399}})
+		}
+	}
+	if r.Thorough() {
+		four := [][]int{{5, 20}, {25, 5}, {1}, {30, 30}, {12}}
+		for _, ps := range []int{+1, 0, -1} {
+			for _, bias := range []bool{false, true} {
+				for _, st := range [][2]int{{333, 2777}, {5000, 64}, {7000, 7001}} {
+					for i, bu := range [][][]int{even, ragged, four} {
+						vars = append(vars, vRoachVar{pulseSign: ps, bias: bias, wordLen: 2 + 2*(i%2), bursts: bu, step: st})
+					}
+				}
+			}
+		}
+	}
+	for _, v := range vars {
+		v := v
+		r.DFS(fmt.Sprintf("roach/%v", v), -1, func(x *vexp.X) vexp.Result { return vRoachRun(x, v) })
+	}
+	return len(vars)
+}
+
 func TestVerifC12(t *testing.T) {
 	r := vexp.NewRunner("C12")
 	defer r.Finish()
@@ -171,7 +692,14 @@ func TestVerifC12(t *testing.T) {
 	if r.Thorough() {
 		maxLen = 7
 	}
-	r.SetBound(fmt.Sprintf("all sequences of length 1..%d over 8 boundary values x all 2^(n-1) splits into calls x 288 option sets (fraction bits 14|16, bits dropped 2|4, enable, bias 0|+q/4|-q/4, resetAfter 1|2|3, pulse sign, inversion)", maxLen))
+	nRoach := 8
+	if r.Thorough() {
+		nRoach = 62
+	}
+	r.SetBound(fmt.Sprintf("all sequences of length 1..%d over 8 boundary values x all 2^(n-1) splits into calls x 288 option sets (fraction bits 14|16, bits dropped 2|4, enable, bias 0|+q/4|-q/4, resetAfter 1|2|3, pulse sign, inversion)"+
+		"; device paths: (a) real AbacoGroup (channels 6-7): 24 option sets accepted by isvalid (RescaleRaw, Unwrap, Bias, ResetAfter 6|1000, PulseSign +-1, channel 7 in InvertChan or only decoys) x 3 two-channel signals of 45-48 samples (slow ramps through several quanta in both directions, boundary values, pulses; 1|2|3 frames per packet) x every partition of the packets into 1, 2 or 3 demuxData calls, against one fresh unwrapper fed everything in one call"+
+		"; (b) real RoachDevice over UDP on 127.0.0.1: %d variants (pulse sign, 2|4-byte words, packetisation, ramp speed%s), 3+ bursts = 3+ blocks from readPackets after samplePacket, against one fresh unwrapper fed everything after the sampled packet in one call", maxLen, nRoach,
+		map[bool]string{false: "", true: ", bias, pulse sign 0"}[r.Thorough()]))
 	for _, fb := range []uint{16, 14} {
 		for _, drop := range []uint{2, 4} {
 			for _, enable := range []bool{true, false} {
@@ -209,5 +737,13 @@ func TestVerifC12(t *testing.T) {
 				}
 			}
 		}
+	}
+	// device paths: the code under test starts goroutines of its own (a panic there is not recoverable)
+	r.CrashTrace = true
+	if n := vAbacoCases(r); n != 24 {
+		panic(fmt.Sprintf("VERIF-INFRA C12: %d Abaco option sets, the bound says 24", n))
+	}
+	if n := vRoachCases(r); n != nRoach {
+		panic(fmt.Sprintf("VERIF-INFRA C12: %d ROACH variants, the bound says %d", n, nRoach))
 	}
 }
